@@ -1035,7 +1035,15 @@ Patch Parser::parse_normal_patch(Patch& patch)
 
         // Expect --- if 'c' command
         if (m_file.peek() == '-') {
+            auto separator_pos = m_file.tellg();
             get_line(patch_line, &newline);
+
+            // Anything else beginning with a '-' (such as the '--- file' header of a following
+            // patch) is not ours to take.
+            if (patch_line != "---") {
+                --m_line_number;
+                m_file.seekg(separator_pos);
+            }
         }
 
         for (LineNumber i = 0; i < current_hunk.new_file_range.number_of_lines; ++i) {
